@@ -49,6 +49,8 @@ func seqAlphabet(levels int) []sop {
 					a = append(a, sop{l, "nestlockset", k, v})
 				}
 			}
+			// a locked section that only READS the key and commits: nothing was set
+			a = append(a, sop{l, "lockread", k, 0})
 		}
 	}
 	return a
@@ -109,6 +111,12 @@ func runSeqMode(mode string, levels int, hist []sop) (detail string) {
 				in.SetValue(o.Key, val(o.Val))
 				in.Commit()
 				lk.Commit()
+			case "lockread":
+				lk := chain[o.Level].LockData()
+				lk.Value(o.Key)
+				lk.Keys()
+				lk.Commit()
+				continue
 			}
 			model[o.Level][o.Key] = val(o.Val)
 		}
